@@ -102,11 +102,17 @@ func (l *lengthFieldCodec) HandleRead(ctx netty.InboundContext, message netty.Me
 	utils.AssertIf(int64(l.initialBytesToStrip) > frameLength,
 		"Adjusted frame length (%d) is less than initialBytesToStrip: %d", frameLength, l.initialBytesToStrip)
 
+	// read the whole frame body (its length is validated above) so that a
+	// truncated frame raises an exception instead of being delivered
+	bodyBuffer := make([]byte, frameLength-int64(lengthFieldEndOffset))
+	n, err = io.ReadFull(reader, bodyBuffer)
+	utils.AssertIf(n != len(bodyBuffer) || nil != err, "read frame body fail, bodyLength: %d, read: %d, error: %w", len(bodyBuffer), n, err)
+
 	frameReader := io.MultiReader(
 		// lengthFieldOffset + lengthFieldLength
 		bytes.NewReader(headerBuffer),
 		// frameLength - len(headerBuffer)
-		io.LimitReader(reader, frameLength-int64(lengthFieldEndOffset)),
+		bytes.NewReader(bodyBuffer),
 	)
 
 	// strip bytes
